@@ -29,6 +29,11 @@ class PointwiseAffineTransform(Transform):
     ):
         super().__init__()
         shift, scale = map(torch.as_tensor, (shift, scale))
+        if not scale.is_floating_point():
+            # integer arguments: keep buffers that follow .float()/.double() like the data
+            scale = scale.to(torch.get_default_dtype())
+        if not shift.is_floating_point():
+            shift = shift.to(torch.get_default_dtype())
 
         if (scale == 0.0).any():
             raise ValueError("Scale must be non-zero.")
